@@ -300,6 +300,12 @@ func (c *Ctx) errorPropagates(f *ssa.Function, cv *ssa.Call, ev ssa.Value) (bool
 			if c.sentinelConversion(f, cv, ev, r) {
 				continue
 			}
+			// `return op(...)`: a retry of the same operation whose own outcome becomes the result
+			if len(r.Results) > 0 {
+				if cl, _ := callOf(returnedValue(r, len(r.Results)-1)); cl != nil && cl != cv && calleeFullName(&cl.Call) == calleeFullName(&cv.Call) {
+					continue
+				}
+			}
 			return false, fmt.Sprintf("on its non-nil edge the return at %s does not report a failure", c.Pos(r.Pos()))
 		}
 	}
